@@ -30,7 +30,7 @@ fn answer(idx: u32, token: u64) -> Result<RV, RErr> {
 
 /// symbols registered in every C05 ruleset and fields of its input, by the same names
 fn fixed_env() -> Vec<(&'static str, RV)> {
-    vec![("on", RV::Bool(true)), ("off", RV::Bool(false)), ("nn", RV::None), ("n7", RV::Int(7))]
+    vec![("on", RV::Bool(true)), ("off", RV::Bool(false)), ("nn", RV::None), ("n7", RV::Int(7)), ("st", RV::str("true")), ("sf", RV::str("false"))]
 }
 
 fn fixed_facts() -> RV {
@@ -101,6 +101,12 @@ pub fn kinds() -> Vec<Kind> {
     v
 }
 
+/// kinds used by C05 only: a call of a function that is not registered still evaluates its
+/// argument first (the argument's calls and errors come before the unknown-function error)
+fn c05_only_kinds() -> Vec<Kind> {
+    vec![Kind { label: "CallUnknown".into(), arity: 1, build: Arc::new(|mut c| RE::call("nosuchfn", c.remove(0))) }]
+}
+
 /// wider constructors, used at depth 1 only (6 probes: 5^6 histories each)
 fn wide_kinds() -> Vec<Kind> {
     vec![
@@ -149,7 +155,8 @@ struct Shape {
 }
 
 fn shapes(tier: Tier) -> Vec<Shape> {
-    let ks = kinds();
+    let mut ks = kinds();
+    ks.extend(c05_only_kinds());
     let mut out = Vec::new();
     // depth 1
     for k in &ks {
